@@ -46,11 +46,16 @@ class SKey(Sym):
                     raise Unsupported("split on another separator")
                 return SSplit(self.e)
             return NativeStub(split, "str.split")
+        if name in ("lstrip", "rstrip", "strip", "replace", "removeprefix", "removesuffix", "partition", "rpartition", "lower", "upper"):
+            # any other string operation on the key: some derived string (what it is exactly does not matter: it is not "the key without sp.")
+            return NativeStub(lambda *a, **k: (f"str.{name}-of-key", self.e) + tuple(a), f"str.{name}")
         raise Unsupported(f"str.{name} on a dotted key")
 
     def sym_getitem(self, ex, k):
         if isinstance(k, slice) and k.start == len("sp.") and k.stop is None and k.step is None:
             return ("key-without-sp-prefix", self.e)
+        if isinstance(k, slice) and all(x is None or isinstance(x, int) for x in (k.start, k.stop, k.step)):
+            return ("slice-of-key", self.e, k.start, k.stop, k.step)
         raise Unsupported("key subscript shape")
 
 
